@@ -91,6 +91,10 @@ void Scheduler::RunLoop() {
       AdvanceTime();
     }
     WakeUpNeeded();
+    if (_queue.Empty()) {
+      // only stale (already empty) sleep entries were due, e.g. of a timed wait that was notified before its deadline
+      continue;
+    }
     auto* next = GetNext();
     sCurrent = next;
     TickTime();
